@@ -477,10 +477,47 @@ func ruleC15Downconvert(c *Ctx) {
 			conv = sw.fn
 		}
 	}
-	// the version test
+	// the version test: in the dispatcher, or in a helper the dispatcher hands the reply to (respValue in, respValue out)
 	var theIf *ssa.If
 	resp2Succ := -1
-	for _, b := range dh.Blocks {
+	host := dh
+	var hostCall *ssa.Call
+	hostHasTest := func(g *ssa.Function) bool {
+		for _, b := range g.Blocks {
+			if ifi, ok := b.Instrs[len(b.Instrs)-1].(*ssa.If); ok {
+				if bo, ok := ifi.Cond.(*ssa.BinOp); ok {
+					_, f1 := loadedField(bo.X)
+					_, f2 := loadedField(bo.Y)
+					if f1 == fVer || f2 == fVer {
+						return true
+					}
+				}
+			}
+		}
+		return false
+	}
+	if !hostHasTest(dh) {
+		for _, in := range instrsOf(dh) {
+			call, ok := in.(*ssa.Call)
+			if !ok {
+				continue
+			}
+			g := call.Call.StaticCallee()
+			if g == nil || g.Blocks == nil || !c.InPkg(g) || g == conv || g.Signature.Results().Len() != 1 || !c.isPkgType(g.Signature.Results().At(0).Type(), "respValue") {
+				continue
+			}
+			takes := false
+			for i := 0; i < g.Signature.Params().Len(); i++ {
+				if c.isPkgType(g.Signature.Params().At(i).Type(), "respValue") {
+					takes = true
+				}
+			}
+			if takes && hostHasTest(g) {
+				host, hostCall = g, call
+			}
+		}
+	}
+	for _, b := range host.Blocks {
 		ifi, ok := b.Instrs[len(b.Instrs)-1].(*ssa.If)
 		if !ok {
 			continue
@@ -524,11 +561,17 @@ func ruleC15Downconvert(c *Ctx) {
 	// the handler call must dominate the version test (no reply returned before it)
 	var hcall ssa.Instruction
 	for site := range c.M.Locks().handlerDynSites {
-		hcall = site
+		if site.Parent() == dh {
+			hcall = site
+		}
+	}
+	testBlock := theIf.Block()
+	if hostCall != nil {
+		testBlock = hostCall.Block()
 	}
 	if !found {
 		c.S.Bad("R-C15-downconvert", key, c.Pos(theIf.Pos()), "the RESP2 branch of the dispatcher does not run the reply through the down-converter")
-	} else if hcall != nil && !reachableFrom(hcall.Block(), nil)[theIf.Block()] {
+	} else if hcall != nil && !reachableFrom(hcall.Block(), nil)[testBlock] {
 		c.S.Bad("R-C15-downconvert", key, c.Pos(theIf.Pos()), "the version test is not on the path after the handler call")
 	} else {
 		// no return between the handler call and the version test other than error replies
@@ -541,7 +584,7 @@ func ruleC15Downconvert(c *Ctx) {
 			if _, ok := b.Instrs[len(b.Instrs)-1].(*ssa.Return); !ok {
 				continue
 			}
-			if reachableFrom(theIf.Block(), nil)[b] {
+			if reachableFrom(testBlock, nil)[b] {
 				continue
 			}
 			okErr := false
